@@ -3,7 +3,7 @@
 #   tools/build.sh [extract] [harness] [lean <targets…>]
 set -e
 export GOFLAGS=-mod=mod GOPROXY=off GOSUMDB=off GOTOOLCHAIN=local
-V=/verif
+V=$(cd "$(dirname "$0")/.." && pwd)
 ZN_REPO=${ZN_REPO:-/repo}
 B=$V/.build
 mkdir -p $B
